@@ -27,6 +27,26 @@ NOT_APPLICABLE = {p: 'check under construction in this session; not claimed unti
                   for p in ['C%02d' % i for i in range(1, 21)]}
 
 PROPS = {
+    'C10': dict(
+        claimed=True,
+        level='exploration',
+        level_text="Systematic placement: the read routine is brought into one of nine states (parked in Read, holding a message with "
+                   "an acknowledgement owed, parked inside its own acknowledgement or PUBREL write, holding a BigMessage, dialing, "
+                   "in the handshake, resending), a failure strikes from one of eight sources (four kinds of foreign writers, read "
+                   "reset, EOF, mid-packet stall, its own write), optionally with a goroutine parked at a hook point of "
+                   "write/toOffline/connect/lockWrite, followed by 0-4 failed connects. The application then keeps calling "
+                   "ReadSlices: every call must return or wait for input (hang oracle), the Dialer must be invoked again, Online "
+                   "must be released on success, pending requests must return, a probe Ping must succeed, and ReadBackoff must "
+                   "respect its documented bounds (2 ms / 16 ms, +2 s allowance).",
+        technique='property-based testing (rapid) over reader state x failure source x hook placement x failed-connect count; bounded-liveness oracle',
+        rule="reader state from 9 x 0-2 waiting requests x gate from {none, write.err, write.unlock, offline.enter, offline.break, "
+             "connect.locked, connect.resend, lockwrite.wait} x failure from 8 x 0-4 failed connects (dial error | refusal | EOF "
+             "in handshake | malformed CONNACK) x ReadBackoff used or not. Non-trivial: a failure by another goroutine while "
+             "the read routine was not parked in Read, a hook gate in use, or >= 2 consecutive failed connects.",
+        assumptions=ASSUME_SIM + ["ReadBackoff lower bounds are measured on the wall clock with 0.5 ms tolerance; upper bound documented idle + 2 s"],
+        quick=dict(engines=[rapid('^TestC10', 1600)]),
+        thorough=dict(engines=[rapid('^TestC10', 40000, shards=14, timeout=1500)]),
+    ),
     'C11': dict(
         claimed=True,
         level='exploration',
